@@ -26,4 +26,12 @@ CLAIMED = {
   note="Trusted: numpy.round/sorted as the canonical order; coordinate sets colliding after rounding are excluded by construction.",
   technique="property-based testing (Hypothesis strategies + exhaustive permutation enumeration) against a reference model"),
 }
+CLAIMED["C01"] = dict(
+  text="Generated histories with boundary-biased pulse parameters on generated devices (every limit present/absent): limits of every newly scheduled pulse after each successful call; generated inside-limit (channel, pulse) pairs must be accepted unchanged or only lengthened; Channel.validate_duration enumerated exhaustively over a (duration, clock, min, max) box. Exploration + exhaustive sub-domain.",
+  note=HIST_NOTE + " 5e-7 slack on detuning comparisons (documented 1e-6 rounding). Own nearest-trap lookup for DMM weights.",
+  technique="property-based testing: generated histories/inputs with boundary-biased values + exhaustive enumeration of the duration rule")
+CLAIMED["C13"] = dict(
+  text="Random call sequences over the whole building/inspection alphabet on three device families against an explicit typestate automaton (must accept / must refuse / unspecified), plus exhaustive enumeration of all <=4/5-call sequences from a 12-call alphabet. Exploration + exhaustive small scope.",
+  note="Calls the statement does not classify are 'unspecified' (either outcome accepted, the model follows the observed outcome).",
+  technique="model-based property testing: generated call sequences vs a typestate automaton + bounded exhaustive enumeration")
 NOT_YET = {}
